@@ -306,6 +306,110 @@ def w_order_send(t, n, nwrites):
     sx.require(serial, "no schedule (all interleavings of lock and write events) puts a piece of one frame between two pieces of another")
 
 
+def _extract_pong_trace(accept):
+    """one recv_data(control_frame=True) call that reads a ping and answers it (short-write pattern `accept` for the pong)"""
+    trace = []
+    sock = TraceSock(trace, incoming=[server_frame(1, 9, b"pp"), "eof"], accept=list(accept))
+    ws = new_ws(sock, get_mask_key=KeySource([bytes([9, 9, 9, 9])]))
+    ws.lock = RecLock("L", trace)
+    ws.readlock = RecLock("R", trace)
+    ws.frame_buffer.lock = RecLock("F", trace)
+    ws.recv_data(True)
+    return trace, sock.wire()
+
+
+def w_order_mixed(nwrites):
+    """thread A sends a frame in `nwrites` pieces, thread B receives a ping and answers it (pong in 1..2 pieces): can a piece
+    of the pong land between two pieces of A's frame (or vice versa)?"""
+    quiet_logging()
+    n = 2
+    F = n + 6
+    acc_a, rem = [], F
+    for j in range(nwrites - 1):
+        if rem <= 1:
+            break
+        a = sx.choice("a%d" % j, rem - 1) + 1
+        acc_a.append(a)
+        rem -= a
+    acc_b = [sx.choice("b0", 7) + 1] if sx.choice("bsplit", 2) else []
+    payload_a, key_a = bytes([0x10]) * n, bytes([1, 0, 0, 0])
+    tr_a, frame_a = _extract_send_trace(payload_a, key_a, acc_a)
+    tr_b, frame_b = _extract_pong_trace(acc_b)
+    traces = [tr_a, tr_b]
+    pos = [_posvars(tid, len(traces[tid])) for tid in range(2)]
+    if sx.mode() != "concrete":
+        import z3
+        cs = _order_constraints(traces, pos)
+        bads = []
+        for a, b in ((0, 1), (1, 0)):
+            wa = [i for i, ev in enumerate(traces[a]) if ev[0] == "w"]
+            wb = [i for i, ev in enumerate(traces[b]) if ev[0] == "w"]
+            for i1, i2 in zip(wa, wa[1:]):
+                for k in wb:
+                    bads.append(z3.And(pos[a][i1] < pos[b][k], pos[b][k] < pos[a][i2]))
+        bad = z3.Or(bads) if bads else z3.BoolVal(False)
+        sx.require(core.SymBool(z3.Not(z3.And(z3.And(cs), bad))),
+                   "no schedule puts a piece of the automatic pong between two pieces of another thread's frame (or the reverse)", nwrites=nwrites)
+        cover("order-mixed")
+        return
+    # ---- concrete replay with real threads
+    order = sorted(((pos[tid][i], tid, i) for tid in range(2) for i in range(len(traces[tid]))))
+    sched = Sched([(tid, i) for _, tid, i in order])
+    ident = {}
+
+    def tid_of():
+        return ident[threading.get_ident()]
+
+    class SSock(FakeSock):
+        def send(self, data):
+            sched.step(tid_of())
+            k = len(data)
+            acc = self.accepts[tid_of()]
+            if acc:
+                k = min(acc.pop(0), k)
+            self.sent.append(bytes(data[:k]))
+            return k
+
+        def recv(self, n):
+            sched.step(tid_of())
+            return FakeSock.recv(self, n)
+
+    sock = SSock([server_frame(1, 9, b"pp"), "eof"])
+    sock.accepts = {0: list(acc_a), 1: list(acc_b)}
+    kq = {0: [key_a], 1: [bytes([9, 9, 9, 9])]}
+    ws = new_ws(sock, get_mask_key=lambda k: kq[tid_of()].pop(0))
+    if hasattr(ws.lock, "acquire"):
+        ws.lock = SchedLock("L", sched, tid_of)
+    if hasattr(ws.readlock, "acquire"):
+        ws.readlock = SchedLock("R", sched, tid_of)
+    ws.frame_buffer.lock = SchedLock("F", sched, tid_of)
+    errs = []
+
+    def run(tid):
+        ident[threading.get_ident()] = tid
+        try:
+            if tid == 0:
+                ws.send_binary(payload_a)
+            else:
+                ws.recv_data(True)
+        except Exception as e:  # noqa
+            errs.append(repr(e))
+            sched.failed = sched.failed or repr(e)
+            with sched.cv:
+                sched.cv.notify_all()
+
+    ths = [threading.Thread(target=run, args=(tid,)) for tid in range(2)]
+    for th in ths:
+        th.start()
+    for th in ths:
+        th.join(30)
+    if errs:
+        raise sx.ReplayMismatch("schedule could not be forced: %s" % errs[:2])
+    wire = b"".join(sock.sent)
+    sx.require(wire in (frame_a + frame_b, frame_b + frame_a),
+               "no schedule puts a piece of the automatic pong between two pieces of another thread's frame (or the reverse)")
+
+
 def _extract_recv_trace():
     """one recv() call that returns a 2-fragment text message"""
     trace = []
@@ -421,6 +525,9 @@ def obligations(tier):
                    bounds="t = 2..4 sender threads, each frame written in 1..3 pieces (symbolic split points), ALL interleavings of the extracted "
                           "lock/write events (no preemption bound)", must_cover=["order-send", "multi-write-trace"], budget_s=1800,
                    solver_timeout_ms=120000, kernel=["WebSocket.send_frame (send lock)"]),
+        Obligation("W-order-mixed", w_order_mixed, [dict(nwrites=w) for w in (2, 3)],
+                   bounds="a sender (frame in 2..3 pieces, symbolic split) against a receiver answering a ping (pong in 1..2 pieces), ALL interleavings",
+                   must_cover=["order-mixed"], solver_timeout_ms=120000, kernel=["WebSocket.send_frame", "recv_data_frame (ping branch)", "WebSocket.pong"]),
         Obligation("W-lockfail", w_lockfail, [dict(sock_timeout=t) for t in (None, 0.5, 5)],
                    bounds="socket timeout None / 0.5 / 5; the send lock refuses every timed or non-blocking acquisition", must_cover=["untimed-acquire"],
                    kernel=["WebSocket.send_frame (send lock)"]),
